@@ -4,6 +4,7 @@ import ZkElGamal.Driver.Enc
 import ZkElGamal.Driver.Range
 import ZkElGamal.Driver.Ae
 import ZkElGamal.Driver.Kdf
+import ZkElGamal.Driver.Secrets
 /-!
 `zkmodel` — the executable model. One op per line on stdin (`<id> <op> <args…>`),
 one result per line on stdout (`<id> <outcome>`); the same lines are run by the
@@ -45,6 +46,8 @@ def execOp (g : Unit → List CPt × List CPt) (op : String) (args : List String
   | "elg" => opElg args
   | "ae" => opAe args
   | "kdf" => opKdf args
+  | "drop" => opDrop args
+  | "debug" => opDebug args
   | "fresh" => "distinct"     -- the specification: nothing ever repeats (theorems of C19)
   | _ => "bad-op"
 
